@@ -5,7 +5,7 @@ import numpy as truenp
 
 from prysm.conf import config
 from prysm.mathops import np, fft, is_odd
-from prysm.fttools import forward_ft_unit, fourier_resample, crop_center, pad2d
+from prysm.fttools import forward_ft_unit, fourier_resample, fourier_resample_backprop, crop_center, pad2d
 from prysm.convolution import apply_transfer_functions
 from prysm.coordinates import (
     warp,
@@ -318,8 +318,8 @@ class DM:
             protograd = pad2d(protograd, out_shape=self.Nintermediate)
 
         if self.upsample != 1:
-            upsample = self.ifn.shape[0]/protograd.shape[0]
-            protograd = fourier_resample(protograd, upsample)
+            # adjoint (not inverse) of the resampling done by render
+            protograd = fourier_resample_backprop(protograd, self.upsample, self.ifn.shape)
 
         if wfe:
             protograd *= (2*self.obliquity)
